@@ -118,9 +118,34 @@ def link_graph_cases():
 
 
 @st.composite
-def cli_cases(draw, tier="quick"):
-    what = draw(st.sampled_from(["trunc", "damage", "damage", "graph_tar", "graph_pack", "text_pack", "text_sort", "text_xattr"]))
+def cli_cases(draw, tier="quick", only=None):
+    what = only or draw(st.sampled_from(["trunc", "damage", "damage", "graph_tar", "graph_pack", "text_pack", "text_sort", "text_xattr", "paxrec", "paxrec"]))
     case = dict(what=what)
+    if what == "paxrec":
+        # one member whose PAX header is a generated sequence of records the reader knows (any order, repeats, odd values), or whose
+        # old GNU sparse map is generated, followed by two ordinary members.  No 'size' record: it would legitimately move the next header.
+        num = st.one_of(st.integers(0, 5000), st.sampled_from([0, 1, 511, 512, 513, 1024, 4096, 2 ** 31, 2 ** 32, 2 ** 63 - 1, 2 ** 64 - 1, 2 ** 64]))
+        numv = num.map(lambda n: b"%d" % n)
+        mapv = st.lists(num, min_size=0, max_size=8).map(lambda l: b",".join(b"%d" % x for x in l))
+        odd = st.sampled_from([b"", b"-1", b"x", b"1,", b",", b"1,2,3", b"9" * 30, b"0x10", b" 1", b"1 ", b"1.5"])
+        keys = {b"GNU.sparse.offset": numv, b"GNU.sparse.numbytes": numv, b"GNU.sparse.map": mapv, b"GNU.sparse.size": numv, b"GNU.sparse.realsize": numv,
+                b"GNU.sparse.major": st.sampled_from([b"0", b"1", b"2"]), b"GNU.sparse.minor": st.sampled_from([b"0", b"1"]), b"GNU.sparse.numblocks": numv,
+                b"GNU.sparse.name": st.sampled_from([b"realname", b"a/b", b"../x", b""]), b"path": st.sampled_from([b"member", b"d/m", b"./m/", b"x" * 300]),
+                b"linkpath": st.sampled_from([b"t", b"t" * 300]), b"uid": numv, b"gid": numv, b"mtime": st.sampled_from([b"1", b"1.5", b"-3", b"99999999999999999999"]),
+                b"SCHILY.xattr.user.a": st.sampled_from([b"v", b"", b"v" * 300]), b"LIBARCHIVE.xattr.user.b": st.sampled_from([b"dg==", b"%%%", b""]), b"comment": st.just(b"c")}
+        sparse_heavy = draw(st.booleans())
+        kl = ([k for k in keys if k.startswith(b"GNU.sparse")] + [b"GNU.sparse.offset", b"GNU.sparse.numbytes", b"GNU.sparse.map"] * 3) if sparse_heavy else list(keys)
+        recs = []
+        for _ in range(draw(st.integers(1, 9))):
+            k = draw(st.sampled_from(kl))
+            recs.append((k, draw(st.one_of(keys[k], keys[k], keys[k], odd))))
+        case["recs"] = recs
+        case["dsize"] = draw(st.sampled_from([0, 1, 512, 600, 1024, 3000]))
+        case["typeflag"] = draw(st.sampled_from([b"0", b"0", b"0", b"S", b"2", b"5"]))
+        # old GNU sparse header: four (offset, numbytes) pairs, optional extension blocks
+        case["old"] = [(draw(num), draw(num)) for _ in range(draw(st.integers(0, 6)))]
+        case["t2s_opts"] = draw(st.sampled_from([[], [], ["-x"], ["-s"]]))
+        return case
     if what in ("trunc", "damage"):
         ar = draw(tarimg.archives(B=4096, max_entries=5))
         case["archive"] = ar
@@ -340,6 +365,51 @@ def check_case(case, opts):
             r = vcommon.run([t2s, "-q", "-c", "gzip", "-b", "4096"] + list(case.get("t2s_opts") or []) + [out], stdin=bad, timeout=30)
             img = judge(r, out, "tar2sqfs on " + desc)
             return CaseInfo(len(bad) >= 512, [what, "codec_%s" % (case["codec"] or "none"), "rc_%d" % r.rc])
+        if what == "paxrec":
+            tf = case["typeflag"]
+            payload = bytes((i * 7 + 13) % 251 + 1 for i in range(case["dsize"]))          # never a zero record
+            body = tarimg._pax_records([tuple(x) for x in case["recs"]])
+            hdr = bytearray(tarimg._header(b"member", 0o644, 1, 2, len(payload), 3, tf, b"lnk" if tf == b"2" else b"", "gnu" if tf == b"S" else "ustar"))
+            ext = b""
+            if tf == b"S":
+                # old GNU sparse fields: 4 pairs at 386, isextended at 482, realsize at 483; extension blocks of 21 pairs
+                old = [tuple(x) for x in case["old"]]
+                def num12(n):
+                    return (b"%011o" % n + b"\0") if n < 8 ** 11 else bytes([0x80]) + (n % (1 << 88)).to_bytes(11, "big")
+                for i, (o_, n_) in enumerate(old[:4]):
+                    hdr[386 + 24 * i:386 + 24 * i + 24] = num12(o_) + num12(n_)
+                hdr[483:495] = num12(sum(n_ for _, n_ in old) % (1 << 60))
+                rest = old[4:]
+                if rest:
+                    hdr[482] = 1
+                    blk = bytearray(512)
+                    for i, (o_, n_) in enumerate(rest[:21]):
+                        blk[24 * i:24 * i + 24] = num12(o_) + num12(n_)
+                    ext = bytes(blk)
+                hdr[148:156] = b" " * 8
+                hdr[148:156] = b"%06o\0 " % sum(hdr)
+            after = [dict(name=b"zz-after%d" % i, type="file", mode=0o644, uid=0, gid=0, mtime=1, xattrs={}, data=b"after %d\n" % i * 40, enc=dict(fmt="ustar")) for i in (1, 2)]
+            data = (tarimg._header(b"./PaxHeaders/member", 0o644, 0, 0, len(body), 0, b"x", b"", "ustar") + tarimg._pad(body) if case["recs"] and tf != b"S" else b"") \
+                + bytes(hdr) + ext + tarimg._pad(payload) + tarimg.encode_archive(after)
+            r = vcommon.run([t2s, "-q", "-c", "gzip", "-b", "4096"] + list(case.get("t2s_opts") or []) + [out], stdin=data, timeout=30)
+            desc = "tar2sqfs on a member (type %s, %d data bytes) with %s" % (tf.decode(), len(payload), ("old GNU sparse map %r" % (case["old"],)) if tf == b"S" else
+                                                                             "PAX records " + ", ".join("%s=%s" % (k.decode(), v[:24].decode("latin-1")) for k, v in case["recs"]))
+            nums = [int(v) for k, v in case["recs"] if k.startswith(b"GNU.sparse") and v.isdigit()] + [int(x) for k, v in case["recs"] if k == b"GNU.sparse.map"
+                                                                                                         for x in v.split(b",") if x.isdigit()]
+            if tf == b"S":
+                nums += [x for pr in case["old"] for x in pr]
+            if r.timeout and any(x > 2 ** 31 for x in nums):
+                raise Inconclusive("the member declares a size of %d bytes: time proportional to the declared size is not a hang" % max(nums))
+            img = judge(r, out, desc)
+            if img is not None:
+                import hashlib
+                t = img.tree()
+                for i in (1, 2):
+                    nm = b"zz-after%d" % i
+                    if nm not in t or t[nm].get("type") != "file" or t[nm].get("sha") != hashlib.sha256(b"after %d\n" % i * 40).hexdigest():
+                        raise Violation("%s: exit status 0, but the well-formed member %r that follows in the archive is missing from the image (or has other contents)"
+                                        % (desc, nm.decode()), None, sig="later-member-lost")
+            return CaseInfo(True, [what, "type_" + tf.decode(), "rc_%d" % r.rc] + (["sparse_records"] if any(k.startswith(b"GNU.sparse") for k, _ in case["recs"]) else []))
         if what.startswith("graph"):
             g = case["graph"]
             nn = len(g)
@@ -521,6 +591,10 @@ def strat(tier, opts):
     return cli_cases(tier)
 
 
+def strat_pax(tier, opts):
+    return cli_cases(tier, only="paxrec")
+
+
 def main(tier, seed, scale=1.0):
     vbuild.build("asan")
     vbuild.build("plain")
@@ -538,6 +612,8 @@ def main(tier, seed, scale=1.0):
         hout = {}
         hth = threading.Thread(target=lambda: hout.setdefault("r", vcommon.run_shards("c07", "check_case", "strat", n, seed, tier, opts, 4)))
         hth.start()
+        pth = threading.Thread(target=lambda: hout.setdefault("p", vcommon.run_shards("c07", "check_case", "strat_pax", n * 6, seed, tier, opts, 4)))
+        pth.start()
         xout = {}
 
         def xrun():
@@ -573,8 +649,9 @@ def main(tier, seed, scale=1.0):
                 res.add_class("artifact_" + base.split("-")[0])
         res.nt_count = tot.get("first_ok", 0)
         hth.join()
+        pth.join()
         xth.join()
-        for d in hout["r"]:
+        for d in hout["r"] + hout["p"]:
             res.merge_shard(d)
         res.nt_count += len(res.nontrivial)
         for idx, cnt, total, bad in xout.get("t", []):
